@@ -77,10 +77,22 @@ def drive(ctx):
         zr = (UTCZ, NAIVE, {"n": "", "fo": rnd.randrange(-86399, 86400)})[k % 3]
         u = UNITS[k % 9]
         # the two setters are called in either order, or only one of them (the other bound keeps its default)
-        order = ("se", "es", "s", "e")[k % 4]
+        order = ("se", "es", "s", "e", "SE", "ES")[k % 6]
 
         def oc(c):
             return {"ws": c["ws"], "we": 6} if order == "s" else ({"ws": 0, "we": c["we"]} if order == "e" else c)
+
+        # values placed ON the configured first / last day of the week (the boundary cases of the week walk)
+        if k % 5 == 0:
+            import datetime as _dt2
+
+            c0 = oc(cfg(k))
+            d0 = _dt2.date(w[0], w[1], min(w[2], 28))
+            for target in (c0["ws"], c0["we"]):
+                d1 = d0 + _dt2.timedelta(days=(target - d0.weekday()) % 7)
+                for opn in ("start_of", "end_of"):
+                    ctx.emit(opn, {"unit": "week", "cfg": c0, "how": "date", "order": order}, [{"k": "date", "w": [d1.year, d1.month, d1.day], "cls": "Date"}])
+                    ctx.emit(opn, {"unit": "week", "cfg": c0, "how": "raw0", "order": order}, [mk_dt(zr, [d1.year, d1.month, d1.day] + w[3:], 0)])
 
         for opn in ("start_of", "end_of"):
             ctx.emit(opn, {"unit": u, "cfg": oc(cfg(k // 9)), "how": "raw0", "order": order}, [mk_dt(zr, w, 0)])
